@@ -12,10 +12,16 @@ Implementation-level oracle (model-free):
     content untouched; when it does not work: nothing is added anywhere,
   * strace: one write(2) per log line on an O_APPEND descriptor (also for lines of 300 kB),
   * 2..32 concurrent hook processes x rounds appending to one log: every line parses, the count matches,
-    each process's lines are in its own order.
+    each process's lines are in its own order,
+  * several decisions in ONE process (harness/c18_worker.py runs main() repeatedly): every ordered pair of log
+    configurations (none / file with log-full / another file / the same file without log-full / /dev/full / NUL path /
+    missing directories / a directory / log-full alone) and random histories of 2..10 runs over all verdict classes and
+    hosts: what each run prints and what it appends to which file is exactly what the same run does in a fresh process.
 Correspondence: Model/Logging.v `hook_run` on the same scenario (fault table derived from the fault
 kind) must predict stdout shape, exit, the decision-log lines byte for byte (given the timestamp), the
-approvals-log records, the fallback records on stderr and the number of logging tracebacks."""
+approvals-log records, the fallback records on stderr and the number of logging tracebacks; Model/Cache.v `effects`
+on the in-process histories must predict, per run, the file that grows and whether the line carries the command
+(C15_history_local: a function of the run's own configuration and faults, whatever the process did before)."""
 from __future__ import annotations
 
 import concurrent.futures as cf
@@ -896,7 +902,9 @@ def run(tier, seed, replay=None):
         "17 decision-sink states (none, ok, log-full, seeded, missing dir, ~, parent is a file, path is a directory, /dev/full, NUL, "
         "~nosuchuser, ok-then-~nosuchuser, symlink loop, name too long, two `set log`) in claude mode; a cross of these for the five other "
         "mode spellings; a config warning variant; injected failure of the k-th operation at each of the 7 sites with each exception "
-        "class; random awkward command texts under log-full; random JSON entries; strace per line size; concurrent appenders. "
+        "class; random awkward command texts under log-full; random JSON entries; strace per line size; concurrent appenders; "
+        "in-process histories: every ordered pair of 9 log configurations (first, second, first again) with a deciding class each and random "
+        "histories of 2..10 main() runs over 12 verdict classes x 3 hosts, each run compared with the same run in a fresh process. "
         "distinct = distinct scenario descriptors; non-trivial = some sink is faulty or some operation is made to fail.  NB the HOME-unset scenarios (24 in quick) make the hook fall back to the password database, i.e. they append a few records to the "
         "approvals log below the real home of the uid running the check; everything else stays in the scratch directory")
     return out
